@@ -57,6 +57,12 @@ func (w *World) ValuesList(pn blob.Ref, attr string, at time.Time, signer int, h
 		cs = append(cs, c)
 	}
 	sort.SliceStable(cs, func(i, j int) bool { return cs[i].Date.Before(cs[j].Date) })
+	return FoldClaimInfos(cs)
+}
+
+// FoldClaimInfos applies set/add/del claims in the order given (no sorting, no filtering) and
+// returns the resulting value list, exactly as ValuesList folds it.
+func FoldClaimInfos(cs []ClaimInfo) []string {
 	var v []string
 	for _, c := range cs {
 		switch c.Kind {
@@ -79,6 +85,26 @@ func (w *World) ValuesList(pn blob.Ref, attr string, at time.Time, signer int, h
 		}
 	}
 	return v
+}
+
+// DeletedAmong is Deleted over the part of the history that has been delivered: only delete
+// claims in delivered count.
+func (w *World) DeletedAmong(x blob.Ref, delivered map[blob.Ref]bool) bool {
+	return w.deletedAmongRec(x, delivered, map[blob.Ref]bool{})
+}
+
+func (w *World) deletedAmongRec(x blob.Ref, delivered, visiting map[blob.Ref]bool) bool {
+	if visiting[x] {
+		return false
+	}
+	visiting[x] = true
+	defer delete(visiting, x)
+	for _, c := range w.Claims {
+		if c.Kind == "delete" && c.Target == x && delivered[c.Ref] && !w.deletedAmongRec(c.Ref, delivered, visiting) {
+			return true
+		}
+	}
+	return false
 }
 
 // Canon removes empty strings and duplicates, keeping first occurrences.
